@@ -243,6 +243,10 @@ pub fn main() {
     for s in ["\"", "\\", "\"\"\"", "\\u0041", "\u{2028}", "\u{1F600}", "a\"b\\c\nd", ""] {
         specials.push(ConstValue::String(s.to_string()));
     }
+    // regression witnesses of fixed findings (doubles that a one-ULP-inexact float parser gets wrong)
+    for f in [1.031754631372895e-257, 4.0356922491291457e-286, -1.8047703715929818e-200] {
+        specials.push(ConstValue::Number(Number::from_f64(f).unwrap()));
+    }
     let total = n as usize + specials.len();
     for i in 0..total {
         let v = if i < specials.len() {
